@@ -319,7 +319,15 @@ class SqlImpl(TableImpl):
                 else_=(cls.compile_col_expr(expr.default_val, sqa_expr) if expr.default_val is not None else None),
             )
 
-            if not cls.pdt_type(res.type).is_subtype(expr.dtype()):
+            # The result type is taken from the first value, but not every database
+            # converts the other values to it (SQLite returns an integer default as an
+            # integer).
+            vals = [val for _, val in expr.cases]
+            if expr.default_val is not None:
+                vals.append(expr.default_val)
+            int_in_float = expr.dtype().is_float() and any(val.dtype().is_int() for val in vals)
+
+            if int_in_float or not cls.pdt_type(res.type).is_subtype(expr.dtype()):
                 res = res.cast(
                     cls.sqa_type(
                         Int64()
